@@ -39,6 +39,35 @@ def handle_observer(got, pred, sp, call, sg, prog, ctx, part):
                    {'program': prog, 'got': np.asarray(have).tolist(), 'expected': want}, own=part['_own'], prefixes=part['_prefixes'])
 
 
+def all_handles_observer(got, pred, sp, call, sg, prog, ctx, part):
+    """One Solution object, every vector / matrix handle of the program (the base heap holds several views that optyx
+    gives the same display name) looked up on it one after the other, in both orders: each lookup returns the values of
+    the variables THAT handle denotes."""
+    handle_observer(got, pred, sp, call, sg, prog, ctx, part)
+    if pred['kind'] not in ('V', 'M'):
+        return
+    from optyx.solution import Solution, SolverStatus
+    vals = {name_of(n): float(i) + 0.25 for i, n in enumerate(sorted(ctx.all_names))}
+    hs = [h for h in sorted(ctx.cur_objs) if h <= len(ctx.cur_heap) and ctx.cur_heap[h - 1]['kind'] in ('V', 'M') and not ctx.cur_heap[h - 1].get('may')]
+    for order in (hs, list(reversed(hs))):
+        sol = Solution(status=SolverStatus.OPTIMAL, objective_value=0.0, values=dict(vals))
+        for h in order:
+            o = ctx.cur_heap[h - 1]
+            try:
+                have = np.asarray(sol[ctx.cur_objs[h]], dtype=float)
+            except Exception as e:
+                pviolation(part, sg, 'Solution[handle] raises %s after other handles were looked up' % type(e).__name__, {'program': prog, 'handle': h},
+                           own=part['_own'], prefixes=part['_prefixes'])
+                return
+            part['evaluations'] += 1
+            want = [vals[name_of(n)] for n in o['names']] if o['kind'] == 'V' else [[vals[name_of(n)] for n in r] for r in o['names']]
+            if have.shape != np.asarray(want).shape or have.tolist() != want:
+                pviolation(part, sg, 'Solution[handle] returns another handle\'s values when several handles are looked up on one Solution',
+                           {'program': prog, 'handle': 'h%d' % h, 'lookup_order': ['h%d' % x for x in order], 'got': have.tolist(), 'expected': want},
+                           own=part['_own'], prefixes=part['_prefixes'])
+                return
+
+
 def run(report, tier):
     histrun.model_check(report)
     scheds = schedrun.schedules(report, overrides={'FaultExcs': '{}', 'Senses': '{"minimize", "maximize"}', 'SchedObjs': '<-MC_ObjsC07'})
@@ -65,12 +94,14 @@ def run(report, tier):
     validate_traces(report, batch, 'C07 repeated solves', keep=('objOK', 'keysOK'))
     from .. import suitetrace
     suitetrace.validate(report, keep=('objOK', 'keysOK'))
-    apirun.run_config(report, 'MC_C11M', observer=handle_observer, report_kinds=(), overrides={'MaxCalls': 1})
+    apirun.run_config(report, 'MC_C11M', observer=all_handles_observer, report_kinds=(), overrides={'MaxCalls': 1})
+    apirun.run_config(report, 'MC_C11', observer=all_handles_observer, report_kinds=(), overrides={'MaxCalls': 1}, tag='vec')
     return report.finish(
         rule='every complete solve behaviour of MC_Sched (minimise and maximise; quadratic, linear-with-constant and non-polynomial '
              'objectives; 15 methods; all outcome classes) replayed through stubbed seams returning chosen points: the recorder evaluates '
              'the user objective at the returned values (objOK) and compares the keys with the variables occurring (keysOK); TraceSolve '
              'rejects a trace whose flag is false; histories with repeated solves of one Problem (cache hits, edits in between) from the model graph '
              'with the real solvers likewise. Plus Solution[handle] / Solution.get for every scalar / vector / matrix view '
-             'enumerated by TLC over MC_C11M against the names the spec gives the view.',
+             'enumerated by TLC over MC_C11M / MC_C11 against the names the spec gives the view, singly and with all handles of the program looked up on '
+             'one Solution in both orders (views with equal display names).',
         exhaustive=True)
